@@ -21,9 +21,16 @@ C == Cases[tid]
 Rng(s) == {s[i] : i \in DOMAIN s}
 SamePartition(a, b) == /\ Len(a) = Len(b)
                        /\ \A i, j \in DOMAIN a : (a[i] = a[j]) <=> (b[i] = b[j])
+(* ordered lists (selectors): equal up to exchanging features whose measures are exactly tied *)
+Abs(x) == IF x < 0 THEN 0 - x ELSE x
+SameUpToTies(a, b) ==
+  /\ Len(a) = Len(b)
+  /\ \A i \in DOMAIN a : a[i] = b[i] \/ (a[i] \in DOMAIN C.tie_m /\ b[i] \in DOMAIN C.tie_m
+                                         /\ C.tie_m[a[i]] # 0 - 1 /\ Abs(C.tie_m[a[i]] - C.tie_m[b[i]]) <= 3
+                                         /\ C.tie_g[a[i]] = C.tie_g[b[i]])
 VariantClauses(v) ==
   IF v.absin # C.ref.absin THEN {"Drv_abstract_input_differs"}
-  ELSE (IF (IF C.ordered THEN v.kept = C.ref.kept ELSE Rng(v.kept) = Rng(C.ref.kept)) THEN {} ELSE {v.clause_kept})
+  ELSE (IF (IF C.ordered THEN SameUpToTies(v.kept, C.ref.kept) ELSE Rng(v.kept) = Rng(C.ref.kept)) THEN {} ELSE {v.clause_kept})
   \cup (IF \A f \in Rng(v.kept) \cap Rng(C.ref.kept) : SamePartition(v.parts[f], C.ref.parts[f]) THEN {} ELSE {v.clause_part})
 Clauses == UNION {VariantClauses(C.variants[i]) : i \in DOMAIN C.variants}
 Init == tid \in 1..Len(Cases) /\ done = FALSE
